@@ -646,6 +646,50 @@ def _main(ck, bdir, cat, rng, scratch, fast, tier):
                          % (e["mcv"], "+" if e["j"] else "", d["args"], g[0][1] if g else None, e["text"], x["text"]),
                          {"case.json": d, "expected.json": x, "stdout.txt": o["stdout"], "stderr.txt": o["stderr"]},
                          sig="decode:" + e["mcv"])
+    # ---- 3b. codes that are neither listed nor excepted have NO description: ovnidump must not print one
+    # ("the descriptions ovnidump prints" are part of the listing).  The unlisted codes selected above, in
+    # printable ASCII, 150 per trace, events without payload after the canonical first event.
+    und = [k for k in sel if k not in acc and k not in listed and 1 < k[1] < 95 and 1 < k[2] < 95]
+    if tier == "quick":
+        rng.shuffle(und)
+        und = und[:6000]
+    und.sort()
+    batches = [und[i:i + 150] for i in range(0, len(und), 150)]
+
+    def dump_unlisted(batch):
+        sd = run.workdir("u")
+        td = os.path.join(sd, "ovni")
+        hist = [synth_event(cat, canon)] + [{"th": 1, "m": k[0] + chr_of(k[1]) + chr_of(k[2]), "payload": ""} for k in batch]
+        system = run.system("O")
+        system["models"] = sorted(cat)
+        clocks = synth.materialise(td, system, hist, models=emuhist.require_for(set(system["models"])))
+        rr = emu.runtool(bdir, "ovnidump", [td], timeout=60)
+        out = rr.out.decode("latin1", "replace")
+        got = {}
+        for ln in out.splitlines():
+            m = re.match(r"^\s*(-?\d+)  (...)  (\S+)  (.*)$", ln)
+            if m:
+                got.setdefault(int(m.group(1)), []).append((m.group(2), m.group(4)))
+        return {"verdict": rr.verdict, "got": [got.get(c, []) for c in clocks[1:]], "stdout": out[-20000:], "stderr": rr.text[-3000:]}
+
+    ures = core.pmap(dump_unlisted, batches)
+    nund = 0
+    for batch, o in zip(batches, ures):
+        if o["verdict"] != "ok" and not (o["verdict"] == "exit0-without-ok"):
+            ck.violation("ovnidump %s on a trace holding unlisted codes" % o["verdict"],
+                         {"stdout.txt": o["stdout"], "stderr.txt": o["stderr"]}, sig="ovnidump-unlisted:" + o["verdict"])
+            continue
+        for k, g in zip(batch, o["got"]):
+            code = k[0] + chr_of(k[1]) + chr_of(k[2])
+            nund += 1
+            ck.case("dump-unlisted:" + code, nontrivial=True)
+            if len(g) == 1 and g[0][0] == code and g[0][1].strip() == "UNKNOWN":
+                continue
+            ck.violation("ovnidump prints a description for the unlisted code %s (model %s): %r; only listed events "
+                         "(and the excepted ignored-value categories) have one"
+                         % (code, cat[k[0]]["name"], g[0][1] if g else None),
+                         {"stdout.txt": o["stdout"], "stderr.txt": o["stderr"]}, sig="dump-unlisted:" + code[:2])
+    ck.notes["unlisted_codes_dumped"] = nund
     ck.notes["decodings"] = {"cases": len(dcases), "compared": ndec, "with_arguments": sum(1 for d in dcases if d["args"])}
     ck.phase("decoding")
 
